@@ -1,15 +1,16 @@
 package main
 
 import (
-	"sort"
 	"encoding/binary"
 	"fmt"
 	"io"
 	"net"
 	"reflect"
+	"sort"
 	"strings"
 	"time"
 	"unsafe"
+	"verif/checks/nbstate"
 
 	"github.com/TheManticoreProject/Manticore/network/netbios/nbtns"
 	"github.com/TheManticoreProject/Manticore/zz_verif/vnet"
@@ -44,18 +45,12 @@ func tableOf(srv any) *nbtns.NetBIOSNameServer {
 }
 
 func recordTTL(t *nbtns.NetBIOSNameServer, name string) (time.Time, bool) {
-	v := reflect.ValueOf(t).Elem()
-	want := reflect.TypeOf(map[string]*nbtns.NameRecord{})
-	for i := 0; i < v.NumField(); i++ {
-		if v.Field(i).Type() == want {
-			m := *(*map[string]*nbtns.NameRecord)(unsafe.Pointer(v.Field(i).UnsafeAddr()))
-			if r, ok := m[name]; ok {
-				return r.TTL, true
-			}
-			return time.Time{}, false
-		}
+	recs, ok := nbstate.Records(t)
+	if !ok {
+		return time.Time{}, false
 	}
-	return time.Time{}, false
+	r, ok := recs[name]
+	return r.TTL, ok
 }
 
 func mkQuery(id uint16, opcode int, name string) []byte { return mkQueryPad(id, opcode, name, -1) }
